@@ -6,6 +6,7 @@ import (
 	"crypto/x509"
 	"fmt"
 	"math/rand/v2"
+	"strings"
 	"time"
 
 	"github.com/scionproto/scion/pkg/scrypto/cms/protocol"
@@ -47,16 +48,23 @@ var (
 func genC37Plan(rng *rand.Rand, i int, tl timeline) c37Plan {
 	p := c37Plan{Case: i, Timeline: tl.Name, Certs: "chain", Signers: "as", Sig: "ok", Payload: "csr",
 		CSRSubject: "same", CSRSig: "ok", CSRCurve: pick(rng, []string{"", "", "P-384", "P-521"})}
-	roots := []string{"old", "kept", "old", "kept", "rogue"}
+	// Roots that can make the chain trusted under this timeline are preferred so
+	// that single departures in the other dimensions are decisive.
+	roots := []string{"old", "kept"}
 	if tl.Update {
-		roots = []string{"old", "new", "kept", "old", "new", "rogue"}
+		roots = []string{"new", "kept", "new", "kept", "old"}
+		if tl.Grace >= hour && tl.UpdNB < 0 && tl.UpdNB+tl.Grace > 0 {
+			roots = []string{"old", "new", "kept"}
+		}
 	}
 	p.ChainRoot = pick(rng, roots)
 	if rng.IntN(100) < 40 {
 		return p
 	}
 	for n := 1 + rng.IntN(2); n > 0; n-- {
-		switch rng.IntN(8) {
+		switch rng.IntN(9) {
+		case 8:
+			p.ChainRoot = pick(rng, []string{"rogue", "old", "old"})
 		case 0:
 			p.ChainDev = pick(rng, c37Devs)
 		case 1:
@@ -248,7 +256,11 @@ func runC37Request(r *mon.Run, pool *gen.Pool, rng *rand.Rand, p c37Plan, tl tim
 	}
 	switch {
 	case accepted && !want:
-		r.Violation("C37:accepts/"+keyReason(p.Reason)+"/"+tlKey(tl),
+		key := "C37:accepts/" + keyReason(p.Reason)
+		if strings.HasPrefix(p.Reason, "chain-not-trusted") {
+			key += "/" + tlKey(tl)
+		}
+		r.Violation(key,
 			fmt.Sprintf("renewal request accepted although: %s", p.Reason), p)
 	case accepted:
 		st.validAccepted++
@@ -425,7 +437,7 @@ func checkC37(r *mon.Run) {
 	pool := gen.NewPool(64, 6, 6)
 	st := &c37Stats{}
 	rng := r.Rand("c37")
-	n := r.Pick(700, 12000)
+	n := r.Pick(1000, 15000)
 	for i := 0; i < n; i++ {
 		tl := timelines[i%len(timelines)]
 		if r.Thorough() && i%3 == 2 {
